@@ -464,6 +464,20 @@ func (s *sim) drawConfig() {
 	s.aePeriod = time.Duration([]int{30, 80, 200, 500}[c.Intn(4)]) * time.Millisecond
 	s.aeBudget = []int{4, 12, 40}[c.Intn(3)]
 	s.honestCommits = map[int]int{}
+	// knob adv (per mille of runs): adversarial scheduler for the fault phase. Behind a knob because replay files
+	// record their knobs: tapes recorded without it keep their meaning.
+	if pm := s.p.KnobInt("adv", 0); pm > 0 && c.Chance(pm, 1000) {
+		a := &advNet{}
+		for i := range a.victims {
+			a.victims[i] = c.Intn(16)
+		}
+		a.pPrevote = []int{300, 600, 900}[c.Intn(3)]
+		a.pProposal = []int{0, 300, 700}[c.Intn(3)]
+		a.pPrecomm = []int{0, 300, 600}[c.Intn(3)]
+		a.delay = time.Duration(1+c.Intn(3)) * (cfg.TimeoutPrevote + cfg.TimeoutPrecommit)
+		nt.adv = a
+		s.r.Probe("adv_scheduler_runs")
+	}
 }
 
 // roundBudget is the time of `rounds` rounds' worth of timeouts (the liveness bound's unit).
